@@ -685,6 +685,10 @@ func diffEvent(got, want evFields) []string {
 }
 
 type checker struct {
+	// what the last valid() case must decode to (used by the framing phase right after it)
+	lastWantMap map[string]*ref.Series
+	lastWantEv  evFields
+
 	reg        ratios
 	r          *mon.Run
 	rigs       map[string]*rig
@@ -782,6 +786,7 @@ func (c *checker) valid(tc *tcase) *recReq {
 	if len(reqs) != 1 {
 		return nil
 	}
+	c.lastWantMap, c.lastWantEv = wantMap, wantEv
 	if r.WantSample() && ((tc.Kind == "map" && len(wantMap) >= 3 && len(wantMap) < 12) || (tc.Kind == "event" && len(tc.Ev.Tags) > 1 && len(tc.Ev.Text) < 100)) {
 		r.Sample(map[string]interface{}{"case": tc, "request_bytes": len(reqs[0].Body), "content_encoding": reqs[0].Enc, "status": reqs[0].Status})
 	}
@@ -1105,6 +1110,12 @@ func TestCheck(t *testing.T) {
 		case "concurrent":
 			// schedule dependent: run the whole concurrent workload of this shard again
 			c.concurrent(r.Pick(6, 40))
+		case "framing":
+			if rc.Case != nil {
+				if q := c.valid(rc.Case); q != nil {
+					c.framing(r.Rand("replay"), rc.Case, q, rc.Framing)
+				}
+			}
 		case "overlap":
 			for _, cfg := range cfgs {
 				if cfg.Name == tc.Cfg {
@@ -1150,7 +1161,7 @@ func TestCheck(t *testing.T) {
 	nValid := r.N(5200, 110000)
 	perValid := r.Pick(4, 5)
 	shard, _ := r.Shard()
-	var tValid, tCorrupt, tShort time.Duration
+	var tValid, tCorrupt, tShort, tFraming time.Duration
 	for i := 0; i < nValid; i++ {
 		cfg := cfgs[(i+shard*5)%len(cfgs)]
 		var tc *tcase
@@ -1174,6 +1185,14 @@ func TestCheck(t *testing.T) {
 				defer ng.close()
 			}
 		}
+		if q != nil {
+			// the same bytes in another legal HTTP framing (all framings in turn)
+			how := framings[(i/2+shard)%len(framings)]
+			r.Case("framing %s #%d cfg=%s enc=%s path=%s bytes=%d", how, i, cfg.Name, q.Enc, q.Path, len(q.Body))
+			t0 := time.Now()
+			c.framing(rng, tc, q, how)
+			tFraming += time.Since(t0)
+		}
 		if q == nil || len(q.Body) > 256<<10 {
 			continue // (no corruptions of very large bodies: they cost much and add nothing)
 		}
@@ -1192,6 +1211,7 @@ func TestCheck(t *testing.T) {
 	r.Extra("ms_valid_cases", tValid.Milliseconds())
 	r.Extra("ms_corrupt_cases", tCorrupt.Milliseconds())
 	r.Extra("ms_short_read_cases", tShort.Milliseconds())
+	r.Extra("ms_framing_cases", tFraming.Milliseconds())
 	c.reg.mu.Lock()
 	r.Extra(fmt.Sprintf("regular_max_ratio_shard%d", shard), c.reg.max)
 	r.Extra(fmt.Sprintf("regular_max_inflated_bytes_shard%d", shard), c.reg.inflated)
@@ -1206,6 +1226,8 @@ type replayCase struct {
 	Item  string `json:"item"`
 	Case  *tcase `json:"case"`
 	Dyn   bool   `json:"dyn"`
+	// Framing names the HTTP framing of a "framing" case
+	Framing string `json:"framing"`
 }
 
 func trimHex(s string) string {
